@@ -41,7 +41,7 @@ def main(ctx):
     def launch_walks():
         return recipe.tlc_only('mapasm-walks', 'MapAsm', constants=walks, invariants=INV,
                                properties=PROPS, emit=True, simulate=6000 if thorough else 800,
-                               depth=40, seed=ctx.seed, timeout=1200, heap='3g')
+                               depth=40, seed=ctx.seed, timeout=1200, heap='3g', budget_ok=True)
 
     with ThreadPoolExecutor(4) as ex:
         futs = [ex.submit(launch, u) for u in units]
